@@ -72,7 +72,7 @@ def gen_layouts(tier):
         yield {"g": "wb", "wb": c["wb"]}
 
 
-ML_TEXTS = ["a\nb", "a\n${t0}\nb", "\n${t0}", "${t0}\nb", "a\n\nb", "a\n ${t0}\n b", "a\t${t0}\tb", "a\r\nb", "${t0}\n${t0}", "a\n${t0}", " \n${t0}\n ",
+ML_TEXTS = ["a \nb", "a\t\nb", "a\u00a0\nb", "a\u2028b", "a\u2029b", "a\x85b", "a \n ${t0} \n b", "a\n\n", "x \n${t0} \ny", "a\nb", "a\n${t0}\nb", "\n${t0}", "${t0}\nb", "a\n\nb", "a\n ${t0}\n b", "a\t${t0}\tb", "a\r\nb", "${t0}\n${t0}", "a\n${t0}", " \n${t0}\n ",
             "x ${t0}\ny ${t0}\nz", "a\n<b>\n${t0}\n&"]
 
 
@@ -112,7 +112,23 @@ def gen_typed(tier):
         yield {"g": "typed", "mask": m}
 
 
-SPACE = GenSpace({"text": gen_text, "grid": gen_grid, "defaults": gen_defaults, "types": gen_types, "layouts": gen_layouts,
+API_FORMS = {
+    "grp": {"survey": [{"type": "text", "name": "a", "label": "A ${b}"}, {"type": "begin group", "name": "g", "label": "G"},
+                       {"type": "text", "name": "b", "label": "B"}, {"type": "end group"}]},
+    "rep": {"survey": [{"type": "begin repeat", "name": "r", "label": "R"}, {"type": "select_one c", "name": "s", "label::en": "S", "label::fr": "Sf"},
+                       {"type": "end repeat"}], "choices": [{"list_name": "c", "name": "x", "label::en": "X", "label::fr": "Xf"}]},
+}
+
+
+def gen_api(tier):
+    """one survey object: serialise in one style, change a nested element, then serialise in both styles"""
+    for form in API_FORMS:
+        for first in ("pretty", "compact", "both"):
+            for mut in ("add-nested-question", "relabel-nested-question", "add-top-question", "none"):
+                yield {"g": "api", "form": form, "first": first, "mut": mut}
+
+
+SPACE = GenSpace({"api": gen_api, "text": gen_text, "grid": gen_grid, "defaults": gen_defaults, "types": gen_types, "layouts": gen_layouts,
                   "multiline": gen_multiline, "typed": gen_typed}, chunk=400)
 blocks = SPACE.blocks
 expand = SPACE.expand
@@ -200,7 +216,39 @@ def features(t):
     return mixed, spaced
 
 
+def check_api(case):
+    import copy
+
+    from pyxform.builder import create_survey_element_from_dict
+    from pyxform.xls2xform import convert
+
+    sv = convert(copy.deepcopy(API_FORMS[case["form"]]))._survey
+    try:
+        if case["first"] in ("pretty", "both"):
+            sv.to_xml(validate=False, pretty_print=True)
+        if case["first"] in ("compact", "both"):
+            sv.to_xml(validate=False, pretty_print=False)
+        nested = next(c for c in sv.children if getattr(c, "children", None) and c.name in ("g", "r"))
+        if case["mut"] == "add-nested-question":
+            nested.add_child(create_survey_element_from_dict({"type": "text", "name": "age", "label": "Age"}))
+        elif case["mut"] == "relabel-nested-question":
+            nested.children[0].label = "Changed" if isinstance(nested.children[0].label, str) else {"en": "Changed", "fr": "Chang\u00e9"}
+        elif case["mut"] == "add-top-question":
+            sv.add_child(create_survey_element_from_dict({"type": "integer", "name": "top2", "label": "Top"}))
+        xa = sv.to_xml(validate=False, pretty_print=False)
+        xb = sv.to_xml(validate=False, pretty_print=True)
+    except Exception as e:  # noqa: BLE001 - the object API may refuse an edit: not a verdict about printing
+        return {"outcome": "api-refused", "nt": False, "viol": [], "tr": 3, "why": f"{type(e).__name__}: {e}"[:100]}
+    viol = []
+    d = first_diff(canon(O.parse(xa)), canon(O.parse(xb)))
+    if d:
+        viol.append((f"print-modes-differ:api:{case['mut']}", f"first={case['first']}: {d}"))
+    return {"outcome": "ok", "nt": case["mut"] != "none" and not viol, "viol": viol, "tr": 4}
+
+
 def check_one(case):
+    if case["g"] == "api":
+        return check_api(case)
     wb, kw = build(case)
     a = run_convert(wb, pretty_print=False, **kw)
     b = run_convert(wb, pretty_print=True, **kw)
